@@ -5,6 +5,8 @@ import (
 	"os"
 	"os/exec"
 	"path/filepath"
+	"sort"
+	"strings"
 	"sync"
 )
 
@@ -20,6 +22,25 @@ var (
 	cmodErr  error
 )
 
+// cSources lists the C files of /repo/c that make up the library proper (no
+// tests, no CLI, no stack.c: the C stack talks to the file system directly).
+func cSources(cdir string) ([]string, error) {
+	ents, err := os.ReadDir(cdir)
+	if err != nil {
+		return nil, err
+	}
+	var out []string
+	for _, e := range ents {
+		n := e.Name()
+		if !strings.HasSuffix(n, ".c") || strings.HasSuffix(n, "_test.c") || n == "test_framework.c" || n == "dump.c" || n == "stack.c" {
+			continue
+		}
+		out = append(out, filepath.Join(cdir, n))
+	}
+	sort.Strings(out)
+	return out, nil
+}
+
 func (e *Engine) cModule() (*LModule, error) {
 	cmodOnce.Do(func() {
 		tmp, err := os.MkdirTemp("", "symgo-cir-")
@@ -29,46 +50,40 @@ func (e *Engine) cModule() (*LModule, error) {
 		}
 		defer os.RemoveAll(tmp)
 		cdir := filepath.Join(e.repoDir, "c")
-		mod := &LModule{structs: map[string]*LType{}, funcs: map[string]*LFunc{}}
-		for _, f := range []string{"record", "basics", "strbuf"} {
-			out := filepath.Join(tmp, f+".ll")
-			cmd := exec.Command("clang", "-O1", "-S", "-emit-llvm", "-I"+cdir, "-I"+filepath.Join(cdir, "include"), filepath.Join(cdir, f+".c"), "-o", out)
+		srcs, err := cSources(cdir)
+		if err != nil {
+			cmodErr = err
+			return
+		}
+		srcs = append(srcs, filepath.Join(e.verifDir, "harness", "cshim.c"))
+		var bcs []string
+		for k, f := range srcs {
+			out := filepath.Join(tmp, fmt.Sprintf("m%d.bc", k))
+			cmd := exec.Command("clang", "-O1", "-w", "-emit-llvm", "-c", "-I"+cdir, "-I"+filepath.Join(cdir, "include"), f, "-o", out)
 			if b, err := cmd.CombinedOutput(); err != nil {
-				cmodErr = fmt.Errorf("clang %s.c: %v\n%s", f, err, b)
+				cmodErr = fmt.Errorf("clang %s: %v\n%s", f, err, b)
 				return
 			}
-			func() {
-				defer func() {
-					if r := recover(); r != nil {
-						cmodErr = fmt.Errorf("cannot parse LLVM IR of %s.c: %v", f, r)
-					}
-				}()
-				m2 := ParseLL(out)
-				for k, v := range m2.structs {
-					if old, ok := mod.structs[k]; ok && len(old.fields) > 0 {
-						continue
-					}
-					mod.structs[k] = v
-				}
-				for k, v := range m2.funcs {
-					mod.funcs[k] = v
+			bcs = append(bcs, out)
+		}
+		all := filepath.Join(tmp, "all.ll")
+		if b, err := exec.Command("llvm-link", append([]string{"-S", "-o", all}, bcs...)...).CombinedOutput(); err != nil {
+			cmodErr = fmt.Errorf("llvm-link: %v\n%s", err, b)
+			return
+		}
+		func() {
+			defer func() {
+				if r := recover(); r != nil {
+					cmodErr = fmt.Errorf("cannot parse the LLVM IR of /repo/c: %v", r)
 				}
 			}()
-			if cmodErr != nil {
-				return
-			}
-		}
-		cmod = mod
+			cmod = ParseLL(all)
+		}()
 	})
 	return cmod, cmodErr
 }
 
 // ---------- marshalling ----------
-
-func (m *Machine) cAlloc(n int) *LObj {
-	m.cheap += 1 << 26
-	return &LObj{base: m.cheap, cells: map[int]lcell{}, size: n}
-}
 
 // cBytes copies a Go byte slice / string into a fresh C object (plus slack bytes, NUL filled).
 func (m *Machine) cBytes(v Val, slack int) *LObj {
@@ -207,6 +222,69 @@ func (m *Machine) cIntrinsic(name string, args []Val) (Val, bool) {
 		r := m.CallC(mod, "reftable_ref_record_encode", []interface{}{LPtr{rec, 0}, LPtr{bo, 0}, cInt(uint64(gs.len), 64, false), cInt(hs.c, 32, false)})
 		m.cBack(bo, gs, gs.len)
 		return m.cRet(r), true
+	case "VerifC_scan": // (table []byte, mode int, arg []byte, idx uint64, outcap int) ([]byte, int)
+		tab := args[0].(Slice)
+		to := m.cBytes(tab, 0)
+		to.what = "table bytes"
+		ao := m.cBytes(args[2], 1)
+		ao.what = "scan argument"
+		capn := m.cInt(args[4], "output capacity")
+		out := m.cAlloc(capn)
+		out.what = "scan output"
+		r := m.CallC(mod, "shim_scan", []interface{}{LPtr{to, 0}, cInt(uint64(tab.len), 64, false), cInt(uint64(m.cInt(args[1], "mode")), 32, false),
+			LPtr{ao, 0}, args[3].(Int), LPtr{out, 0}, cInt(uint64(capn), 64, false)})
+		n := m.cConc(r, "scan result length")
+		if os.Getenv("VERIF_CDEBUG") != "" {
+			fmt.Fprintf(os.Stderr, "CDEBUG scan mode=%v n=%d out=%s\n", args[1], n, m.cDump(out, n, capn))
+		}
+		return Tuple{m.cOut(out, n, capn), goInt(n)}, true
+	case "VerifC_write": // (desc []byte, blockSize uint32, restartInterval int, flags int, min, max uint64, outcap int) ([]byte, int)
+		ds := args[0].(Slice)
+		do := m.cBytes(ds, 0)
+		do.what = "record stream"
+		capn := m.cInt(args[6], "output capacity")
+		out := m.cAlloc(capn)
+		out.what = "table output"
+		r := m.CallC(mod, "shim_write", []interface{}{LPtr{do, 0}, cInt(uint64(ds.len), 64, false), cInt(uint64(m.cInt(args[1], "block size")), 32, false),
+			cInt(uint64(m.cInt(args[2], "restart interval")), 32, false), cInt(uint64(m.cInt(args[3], "flags")), 32, false),
+			args[4].(Int), args[5].(Int), LPtr{out, 0}, cInt(uint64(capn), 64, false)})
+		n := m.cConc(r, "table size")
+		return Tuple{m.cOut(out, n, capn), goInt(n)}, true
 	}
 	return nil, false
+}
+
+// cOut returns the first min(n, cap) bytes of a C output buffer as a Go byte slice.
+func (m *Machine) cOut(o *LObj, n, capn int) Slice {
+	if n < 0 {
+		n = 0
+	}
+	if n > capn {
+		n = capn
+	}
+	a := newByteArray(n)
+	for k := 0; k < n; k++ {
+		a.set(k, m.lload(LPtr{o, k}, 1, false).(Int))
+	}
+	return Slice{arr: a, len: n, cap: n}
+}
+
+func (m *Machine) cDump(o *LObj, n, capn int) string {
+	if n > capn {
+		n = capn
+	}
+	var sb strings.Builder
+	for k := 0; k < n; k++ {
+		c, ok := o.cells[k]
+		if !ok {
+			sb.WriteString("__")
+			continue
+		}
+		if iv, isInt := c.v.(Int); isInt && iv.t == nil {
+			fmt.Fprintf(&sb, "%02x", iv.c)
+		} else {
+			sb.WriteString("??")
+		}
+	}
+	return sb.String()
 }
